@@ -18,13 +18,11 @@ theorem isOk_unit {r : PyM Unit} (h : isOk r = true) : r = .ok () := by
   | ok u => rfl
   | error e => simp [isOk] at h
 
-/-- a label name accepted by the library's own `_validate_labelname`, minus the F2 point (a name the legacy pattern
-accepts although it ends in a line feed, because `$` also matches before a final '\n') -/
-def labelNameOK (legacy : Bool) (k : Str) : Bool :=
-  isOk (validateLabelname legacy k) && !(isValidLegacyLabelname k && k.getLast? == some '\n')
+/-- a label name accepted by the library's own `_validate_labelname` -/
+def labelNameOK (legacy : Bool) (k : Str) : Bool := isOk (validateLabelname legacy k)
 
 /-- the label dicts the round trip is stated for: every name accepted by `_validate_labelname` (which excludes
-`__name__` and all `__…` names), no F2 name, keys unique (a dict) -/
+`__name__` and all `__…` names), keys unique (a dict) -/
 def LabelsOK (legacy : Bool) (ls : List (Str × Str)) : Prop :=
   (∀ kv ∈ ls, labelNameOK legacy kv.1 = true) ∧ (ls.map (·.1)).Nodup
 
@@ -47,16 +45,11 @@ theorem nameSafe_or (d e : Char) (hq : d ≠ '"') (hl : isLegacyChar d = false) 
 theorem nameTok_cases {legacy : Bool} {k : Str} (h : labelNameOK legacy k = true) :
     (escapeLabelName k = k ∧ k ≠ [] ∧ (∀ c ∈ k, isLegacyChar c = true) ∧ matchExact labelNameRe k = true) ∨
     (escapeLabelName k = '"' :: (escape k ++ ['"'])) := by
-  unfold labelNameOK at h
-  simp only [Bool.and_eq_true, Bool.not_eq_true', Bool.and_eq_false_iff] at h
   unfold escapeLabelName
   by_cases hv : isValidLegacyLabelname k = true
   · left
     simp only [hv, ↓reduceIte, true_and]
-    have hn : k.getLast? ≠ some '\n' := by
-      rcases h.2 with h2 | h2
-      · rw [hv] at h2; exact absurd h2 (by decide)
-      · simpa using h2
+    have hn : k.getLast? ≠ some '\n' := legacyLabel_no_newline hv
     unfold isValidLegacyLabelname at hv
     simp only [Bool.and_eq_true] at hv
     have hm := matchName_exact hv.1 hn
@@ -77,9 +70,7 @@ theorem labelNameOK_ne_name {legacy : Bool} {k : Str} (h : labelNameOK legacy k 
 
 theorem labelNameOK_validate {legacy : Bool} {k : Str} (h : labelNameOK legacy k = true) :
     validateLabelname legacy k = .ok () := by
-  unfold labelNameOK at h
-  simp only [Bool.and_eq_true] at h
-  exact isOk_unit h.1
+  exact isOk_unit h
 
 /-- the scanner passes a rendered label name -/
 theorem nameTok_pass {chs : Char → Bool} (hs : NameSafe chs) {legacy : Bool} {k : Str} (h : labelNameOK legacy k = true) :
